@@ -96,6 +96,9 @@ def gen_layout(ctx, forced=None):
             ln = BITS[t]
             if t in TYPES8 and ctx.choice(2, "subbyte"):
                 ln = 1 + ctx.choice(7, "ln")
+            # (custom bit lengths of multi-byte objects are not among the layouts the
+            # property quantifies over - "own bit length, BOOLEAN as one bit, sub-byte
+            # fields of 8-bit objects" - and the library does not support them)
             if t == odm.BOOLEAN and ctx.choice(2, "bool1"):
                 ln = 1
         c = used.get(t, 0)
@@ -196,11 +199,13 @@ class W:
 
 def configure(ctx, w, pair, cob_id, layout, enabled=True, rtr=True, via_save=False):
     """give both maps the same configuration"""
+    ttype = (255, 254, 253, 252, 1, 0)[ctx.choice(6, "ttype")]
+
     def apply(m):
         m.cob_id = cob_id
         m.enabled = enabled
         m.rtr_allowed = rtr
-        m.trans_type = 255
+        m.trans_type = ttype
         m.clear()
         for (t, c, ln) in layout:
             if ln == BITS[t] and ctx.choice(2, "implicit"):
